@@ -6,17 +6,17 @@ From Verif Require Import Json Outcome Match PatIndex State StateSpec MatchLemma
   CascadeSpec CascadeLemmas1 CascadeTerm CascadeExact AssocLemmas StateProofs
   DurableFrame DurableInv DurableSpec.
 
-Lemma expire_false rr s id fact now s1 err :
-  expire rr s id fact now = (s1, false, err) -> fact_expired fact now = false /\ s1 = s.
+Lemma expire_false_inv s id fact now s1 :
+  expire s id fact now = (s1, false) -> fact_expired fact now = false /\ s1 = s.
 Proof.
   unfold expire. destruct (fact_expired fact now).
-  - destruct (rr s id now) as [s' o]. intros H. inversion H.
+  - intros H. inversion H.
   - intros H. inversion H. split; reflexivity.
 Qed.
 
-Lemma expire_noexp rr s id fact now :
-  fact_expired fact now = false -> expire rr s id fact now = (s, false, None).
-Proof. unfold expire. intros ->. reflexivity. Qed.
+Lemma expire_noexp s id fact now :
+  fact_expired fact now = false -> expire s id fact now = (s, false).
+Proof. apply expire_false. Qed.
 
 (** * B5: what the iterations return is live in the initial state *)
 
@@ -26,48 +26,47 @@ Definition rule_of (k : skind) (fact body : json) : Prop :=
   | Linear => jget "rule" fact = Some body
   end.
 
-Section Live.
-  Variable rr : state -> string -> Z -> state * outcome bool.
-  Hypothesis rr_Sub : forall s id now, Sub s (fst (rr s id now)).
-
-  Lemma expire_Sub_gen s id fact now : Sub s (fst (fst (expire rr s id fact now))).
-  Proof. apply (expire_R Sub Sub_refl Sub_trans Sub_amb rr rr_Sub). Qed.
-
-  Lemma search_ids_live s0 pattern now ids : forall s acc s' res,
-    Sub s0 s -> (forall id bss, In (id, bss) acc -> live s0 id now) ->
-    search_ids rr s ids pattern now acc = (s', Ok res) ->
-    forall id bss, In (id, bss) res -> live s0 id now.
-  Proof.
-    induction ids as [|i r IH]; intros s acc s' res HS Hacc H; cbn [search_ids] in H.
-    - injection H as _ <-. intros id bss Hin. apply in_rev in Hin. eapply Hacc; exact Hin.
-    - destruct (alookup i (st_facts s)) as [fact|] eqn:El; [|eapply IH; eassumption].
-      pose proof (expire_Sub_gen s i fact now) as HS1.
-      destruct (expire rr s i fact now) as [[s1 expired] err] eqn:Ex. cbn [fst] in HS1.
-      assert (HS01 : Sub s0 s1) by (eapply Sub_trans; eassumption).
-      destruct (expire_stops (st_kind s) err); [discriminate|].
-      destruct expired; [eapply IH; eassumption|].
-      apply expire_false in Ex. destruct Ex as [Hne ->].
-      destruct (core_match pattern fact []) as [[|b bss0]|e|w|]; try discriminate.
-      + eapply IH; eassumption.
-      + eapply IH; [exact HS01| |exact H].
-        intros id bss [E|Hin]; [|eapply Hacc; exact Hin].
-        injection E as <- <-. exists fact. split; [|exact Hne].
-        destruct HS as (_ & _ & _ & _ & HF & _). apply HF. exact El.
-  Qed.
-End Live.
-
-Lemma st_search_live s p now s' res :
-  st_search s p now = (s', Ok res) -> forall id bss, In (id, bss) res -> live s id now.
+Lemma search_ids_live s0 pattern now ids : forall s acc s' res,
+  Sub s0 s -> (forall id bss, In (id, bss) acc -> live s0 id now) ->
+  search_ids s ids pattern now acc = (s', Ok res) ->
+  forall id bss, In (id, bss) res -> live s0 id now.
 Proof.
-  unfold st_search, search_state. intros H.
-  assert (Hgen : forall ids, search_ids st_rem_rec s ids p now [] = (s', Ok res) ->
+  induction ids as [|i r IH]; intros s acc s' res HS Hacc H; cbn [search_ids] in H.
+  - injection H as _ <-. intros id bss Hin. apply in_rev in Hin. eapply Hacc; exact Hin.
+  - destruct (alookup i (st_facts s)) as [fact|] eqn:El; [|eapply IH; eassumption].
+    pose proof (expire_Sub s i fact now) as HS1.
+    destruct (expire s i fact now) as [s1 expired] eqn:Ex. cbn [fst] in HS1.
+    assert (HS01 : Sub s0 s1) by (eapply Sub_trans; eassumption).
+    destruct expired; [eapply IH; eassumption|].
+    apply expire_false_inv in Ex. destruct Ex as [Hne ->].
+    destruct (core_match pattern fact []) as [[|b bss0]|e|w|]; try discriminate.
+    + eapply IH; eassumption.
+    + eapply IH; [exact HS01| |exact H].
+      intros id bss [E|Hin]; [|eapply Hacc; exact Hin].
+      injection E as <- <-. exists fact. split; [|exact Hne].
+      destruct HS as (_ & _ & _ & _ & HF & _). apply HF. exact El.
+Qed.
+
+Lemma search_state_live s p now s' res :
+  search_state s p now = (s', Ok res) -> forall id bss, In (id, bss) res -> live s id now.
+Proof.
+  unfold search_state. intros H.
+  assert (Hgen : forall ids, search_ids s ids p now [] = (s', Ok res) ->
                              forall id bss, In (id, bss) res -> live s id now).
-  { intros ids Hs. eapply (search_ids_live st_rem_rec st_rem_rec_Sub s p now ids s []);
+  { intros ids Hs. eapply (search_ids_live s p now ids s []);
       [apply Sub_refl|intros ? ? []|exact Hs]. }
   destruct (st_kind s).
   - destruct (ti_search (st_tindex s) (extract_terms p)) as [ids|e|w|]; try discriminate.
     eapply Hgen; exact H.
   - eapply Hgen; exact H.
+Qed.
+
+Lemma st_search_live s p now s' res :
+  st_search s p now = (s', Ok res) -> forall id bss, In (id, bss) res -> live s id now.
+Proof.
+  unfold st_search. rewrite with_purge_eq. intros H.
+  destruct (search_state s p now) as [s1 o] eqn:E. cbn [fst snd] in H.
+  injection H as _ ->. eapply search_state_live; exact E.
 Qed.
 
 Definition found_live (s0 : state) (now : Z) (l : list (string * json)) : Prop :=
@@ -83,10 +82,10 @@ Proof.
   - injection H as _ <-. intros id body Hin. apply in_rev in Hin. apply Hacc; exact Hin.
   - destruct (alookup i (st_facts s)) as [fact|] eqn:El; [|discriminate].
     pose proof (expire_Sub s i fact now) as HS1.
-    destruct (expire st_rem_rec s i fact now) as [[s1 expired] err] eqn:Ex. cbn [fst] in HS1.
+    destruct (expire s i fact now) as [s1 expired] eqn:Ex. cbn [fst] in HS1.
     assert (HS01 : Sub s0 s1) by (eapply Sub_trans; eassumption).
     destruct expired; [eapply IH; eassumption|].
-    apply expire_false in Ex. destruct Ex as [Hne ->].
+    apply expire_false_inv in Ex. destruct Ex as [Hne ->].
     destruct (extract_rule fact true) as [[body|]|e|w|] eqn:Er; try discriminate.
     eapply IH; [exact Hk|exact HS01| |exact H].
     intros id b [E|Hin]; [|apply Hacc; exact Hin].
@@ -104,11 +103,10 @@ Proof.
   - destruct (alookup i (st_facts s)) as [fact|] eqn:El; [|eapply IH; eassumption].
     destruct (jget "rule" fact) as [rule|] eqn:Er; [|eapply IH; eassumption].
     pose proof (expire_Sub s i fact now) as HS1.
-    destruct (expire st_rem_rec s i fact now) as [[s1 expired] err] eqn:Ex. cbn [fst] in HS1.
+    destruct (expire s i fact now) as [s1 expired] eqn:Ex. cbn [fst] in HS1.
     assert (HS01 : Sub s0 s1) by (eapply Sub_trans; eassumption).
-    destruct err; [discriminate|].
     destruct expired; [eapply IH; eassumption|].
-    apply expire_false in Ex. destruct Ex as [Hne ->].
+    apply expire_false_inv in Ex. destruct Ex as [Hne ->].
     destruct rule as [| | | | |rm]; try (eapply IH; eassumption).
     destruct (alookup "when" rm) as [[| | | | |w]|]; try (eapply IH; eassumption).
     destruct (core_match _ ev []) as [[|b bss]|e|w'|]; try discriminate.
@@ -120,36 +118,40 @@ Proof.
       * rewrite Hk. exact Er.
 Qed.
 
+Lemma do_find_rules_live s ev now s' l :
+  do_find_rules s ev now = (s', Ok l) -> found_live s now l.
+Proof.
+  unfold do_find_rules. rewrite with_purge_eq. intros H.
+  match type of H with (_, snd ?X) = _ => destruct X as [s1 o] eqn:E end.
+  cbn [fst snd] in H. injection H as _ ->. revert E.
+  destruct (st_kind s) eqn:Hk.
+  - destruct (pi_search (st_pindex s) ev) as [ids|e|w|]; try discriminate.
+    apply find_ids_idx_live; [exact Hk|apply Sub_refl|intros ? ? []].
+  - apply find_ids_lin_live; [exact Hk|apply Sub_refl|intros ? ? []].
+Qed.
+
 Lemma st_find_rules_live s ev now s' l :
   st_find_rules s ev now = (s', Ok l) -> found_live s now l.
 Proof.
-  unfold st_find_rules.
-  match goal with
-  | |- (let '(a, b) := ?X in _) = _ -> _ =>
-      assert (Hx : forall s1 res, X = (s1, Ok res) -> found_live s now res); [|destruct X as [s1 res]]
-  end.
-  { intros s1 res. destruct (st_kind s) eqn:Hk.
-    - destruct (pi_search (st_pindex s) ev) as [ids|e|w|]; try discriminate.
-      apply find_ids_idx_live; [exact Hk|apply Sub_refl|intros ? ? []].
-    - apply find_ids_lin_live; [exact Hk|apply Sub_refl|intros ? ? []]. }
+  unfold st_find_rules. destruct (do_find_rules s ev now) as [s1 res] eqn:E.
   destruct res as [l0|e|w|]; try discriminate.
   intros H. injection H as _ <-.
   intros id body Hin. unfold check_rules in Hin. apply filter_In in Hin. destruct Hin as [Hin _].
-  eapply Hx; [reflexivity|exact Hin].
+  eapply do_find_rules_live; [exact E|exact Hin].
 Qed.
 
 (** * Reads of a state without expired facts change nothing *)
 
-Lemma search_ids_noexp_state rr s now : no_expired s now ->
-  forall ids p acc, fst (search_ids rr s ids p now acc) = s.
+Lemma search_ids_noexp_state s now : no_expired s now ->
+  forall ids p acc, fst (search_ids s ids p now acc) = s.
 Proof.
   intros Hne. induction ids as [|i r IH]; intros p acc; cbn [search_ids]; [reflexivity|].
   destruct (alookup i (st_facts s)) as [fact|] eqn:El; [|apply IH].
-  rewrite (expire_noexp rr s i fact now (Hne i fact El)).
+  rewrite (expire_noexp s i fact now (Hne i fact El)).
   destruct (core_match p fact []) as [[|b bss]|e|w|]; try reflexivity; apply IH.
 Qed.
 
-Lemma search_state_noexp_state rr s p now : no_expired s now -> fst (search_state rr s p now) = s.
+Lemma search_state_noexp_state s p now : no_expired s now -> fst (search_state s p now) = s.
 Proof.
   intros Hne. unfold search_state. destruct (st_kind s).
   - destruct (ti_search (st_tindex s) (extract_terms p)); try reflexivity.
@@ -157,13 +159,26 @@ Proof.
   - apply search_ids_noexp_state; exact Hne.
 Qed.
 
-Lemma st_search_noexp s p now : no_expired s now -> fst (st_search s p now) = s.
-Proof. apply search_state_noexp_state. Qed.
+Lemma fst_with_purge_nil {A} (r : state * outcome A) now :
+  st_pending (fst r) = [] -> fst (with_purge r now) = fst r.
+Proof. intros H. rewrite fst_with_purge, (purge_nil _ now H). reflexivity. Qed.
 
-Lemma st_get_noexp s id now : no_expired s now -> fst (st_get s id now) = s.
+Lemma st_search_noexp s p now : no_expired s now -> st_pending s = [] -> fst (st_search s p now) = s.
 Proof.
-  intros Hne. unfold st_get. destruct (alookup id (st_facts s)) as [fact|] eqn:El; [|reflexivity].
-  rewrite (Hne id fact El). reflexivity.
+  intros Hne Hp. unfold st_search. pose proof (search_state_noexp_state s p now Hne) as H.
+  rewrite fst_with_purge_nil; rewrite H; [reflexivity|exact Hp].
+Qed.
+
+Lemma get_body_noexp s id now : no_expired s now -> fst (get_body s id now) = s.
+Proof.
+  intros Hne. unfold get_body. destruct (alookup id (st_facts s)) as [fact|] eqn:El; [|reflexivity].
+  rewrite (expire_noexp s id fact now (Hne id fact El)). reflexivity.
+Qed.
+
+Lemma st_get_noexp s id now : no_expired s now -> st_pending s = [] -> fst (st_get s id now) = s.
+Proof.
+  intros Hne Hp. unfold st_get. pose proof (get_body_noexp s id now Hne) as H.
+  rewrite fst_with_purge_nil; rewrite H; [reflexivity|exact Hp].
 Qed.
 
 Lemma find_ids_idx_noexp s now : no_expired s now ->
@@ -171,7 +186,7 @@ Lemma find_ids_idx_noexp s now : no_expired s now ->
 Proof.
   intros Hne. induction ids as [|i r IH]; intros acc; cbn [find_ids_idx]; [reflexivity|].
   destruct (alookup i (st_facts s)) as [fact|] eqn:El; [|reflexivity].
-  rewrite (expire_noexp st_rem_rec s i fact now (Hne i fact El)).
+  rewrite (expire_noexp s i fact now (Hne i fact El)).
   destruct (extract_rule fact true) as [[body|]|e|w|]; try reflexivity. apply IH.
 Qed.
 
@@ -181,24 +196,52 @@ Proof.
   intros Hne. induction ids as [|i r IH]; intros acc; cbn [find_ids_lin]; [reflexivity|].
   destruct (alookup i (st_facts s)) as [fact|] eqn:El; [|apply IH].
   destruct (jget "rule" fact) as [rule|]; [|apply IH].
-  rewrite (expire_noexp st_rem_rec s i fact now (Hne i fact El)).
+  rewrite (expire_noexp s i fact now (Hne i fact El)).
   destruct rule as [| | | | |rm]; try apply IH.
   destruct (alookup "when" rm) as [[| | | | |w]|]; try apply IH.
   destruct (core_match _ ev []) as [[|b bss]|e|w'|]; try reflexivity; apply IH.
 Qed.
 
-Lemma st_find_rules_noexp s ev now : no_expired s now -> fst (st_find_rules s ev now) = s.
+Lemma do_find_rules_noexp s ev now : no_expired s now -> st_pending s = [] -> fst (do_find_rules s ev now) = s.
 Proof.
-  intros Hne. unfold st_find_rules.
-  match goal with
-  | |- fst (let '(a, b) := ?X in _) = _ => assert (H : fst X = s); [|destruct X as [s1 res]]
-  end.
+  intros Hne Hp. unfold do_find_rules.
+  match goal with |- fst (with_purge ?X now) = _ => assert (H : fst X = s) end.
   { destruct (st_kind s).
     - destruct (pi_search (st_pindex s) ev); try reflexivity. apply find_ids_idx_noexp; exact Hne.
     - apply find_ids_lin_noexp; exact Hne. }
-  cbn [fst] in H. subst s1.
+  rewrite fst_with_purge_nil; rewrite H; [reflexivity|exact Hp].
+Qed.
+
+Lemma st_find_rules_noexp s ev now : no_expired s now -> st_pending s = [] -> fst (st_find_rules s ev now) = s.
+Proof.
+  intros Hne Hp. unfold st_find_rules. pose proof (do_find_rules_noexp s ev now Hne Hp) as H.
+  destruct (do_find_rules s ev now) as [s1 res]. cbn [fst] in H. subst s1.
   destruct res as [l|e|w|]; reflexivity.
 Qed.
+
+(** the purge of a state without expired facts only empties the list *)
+Lemma purge_ids_noexp s now : no_expired s now -> forall ids, purge_ids s ids now = (s, Ok tt).
+Proof.
+  intros Hne. induction ids as [|i r IH]; cbn [purge_ids]; [reflexivity|].
+  destruct (alookup i (st_facts s)) as [fact|] eqn:El; [|exact IH].
+  rewrite (Hne i fact El). exact IH.
+Qed.
+
+Lemma set_pending_same s : set_pending s (st_pending s) = s.
+Proof. destruct s; reflexivity. Qed.
+
+Lemma purge_noexp s now : no_expired s now -> purge s now = (set_pending s [], Ok tt).
+Proof.
+  intros Hne. unfold purge, purge_rounds. cbn [purge_fuel].
+  destruct (st_pending s) as [|i ids] eqn:Ep.
+  - rewrite <- Ep, set_pending_same. reflexivity.
+  - rewrite (purge_ids_noexp (set_pending s []) now Hne (i :: ids)).
+    destruct (length (st_facts s)); reflexivity.
+Qed.
+
+Lemma with_purge_noexp {A} (r : state * outcome A) now :
+  no_expired (fst r) now -> with_purge r now = (set_pending (fst r) [], snd r).
+Proof. intros Hne. rewrite with_purge_eq, (purge_noexp _ now Hne). reflexivity. Qed.
 
 (** * Without a storage failure a removal never errs *)
 
@@ -225,44 +268,33 @@ Lemma ok_or_oof_wrapb {A B} (r : state * outcome A) (b : B) :
   ok_or_oof (snd r) -> ok_or_oof (snd (wrapb r b)).
 Proof. destruct r as [s [a|e|w|]]; cbn; auto. Qed.
 
+(** the search for dependents always answers (its pattern has a term, and the
+    matcher always answers on it) *)
+Lemma search_ids_dw_ok x now : forall ids s acc,
+  exists res, snd (search_ids s ids (dw_pattern x) now acc) = Ok res.
+Proof.
+  induction ids as [|i r IH]; intros s acc; cbn [search_ids].
+  - eexists; reflexivity.
+  - destruct (alookup i (st_facts s)) as [fact|]; [|apply IH].
+    destruct (expire s i fact now) as [s1 expired].
+    destruct expired; [apply IH|].
+    destruct (core_match_dw_ok x fact) as [res ->]. destruct res; apply IH.
+Qed.
+
+Lemma search_state_dw_ok x s now :
+  exists res, snd (search_state s (dw_pattern x) now) = Ok res.
+Proof.
+  unfold search_state. destruct (st_kind s).
+  - destruct (ti_search_spec (st_tindex s) _ (dw_terms_nonempty x)) as (ids & -> & _).
+    apply search_ids_dw_ok.
+  - apply search_ids_dw_ok.
+Qed.
+
 Section NoFail.
   Variable rr : state -> string -> Z -> state * outcome bool.
   Variable now : Z.
   Hypothesis rr_Sub : forall s id now, Sub s (fst (rr s id now)).
   Hypothesis rr_ok : forall s j, st_fail s = None -> ok_or_oof (snd (rr s j now)).
-
-  Lemma expire_nofail_err s i fact : st_fail s = None -> snd (expire rr s i fact now) = None.
-  Proof.
-    intros Hf. unfold expire. destruct (fact_expired fact now); [|reflexivity].
-    pose proof (rr_ok s i Hf) as Ho. destruct (rr s i now) as [s' o]. cbn [snd] in *.
-    destruct o; try contradiction; reflexivity.
-  Qed.
-
-  (** (without a storage failure: under one, the linear state's search
-      returns the error of the purge of an expired item) *)
-  Lemma search_ids_dw_ok x : forall ids s acc, st_fail s = None ->
-    exists res, snd (search_ids rr s ids (dw_pattern x) now acc) = Ok res.
-  Proof.
-    induction ids as [|i r IH]; intros s acc Hf; cbn [search_ids].
-    - eexists; reflexivity.
-    - destruct (alookup i (st_facts s)) as [fact|]; [|apply IH; exact Hf].
-      pose proof (expire_nofail_err s i fact Hf) as He.
-      pose proof (expire_R Sub Sub_refl Sub_trans Sub_amb rr rr_Sub s i fact now) as HS.
-      destruct (expire rr s i fact now) as [[s1 expired] err]. cbn [fst snd] in *. subst err.
-      cbv beta iota delta [expire_stops].
-      assert (Hf1 : st_fail s1 = None) by (destruct HS as (_ & _ & HS & _); congruence).
-      destruct expired; [apply IH; exact Hf1|].
-      destruct (core_match_dw_ok x fact) as [res ->]. destruct res; apply IH; exact Hf1.
-  Qed.
-
-  Lemma search_state_dw_ok x s : st_fail s = None ->
-    exists res, snd (search_state rr s (dw_pattern x) now) = Ok res.
-  Proof.
-    intros Hf. unfold search_state. destruct (st_kind s).
-    - destruct (ti_search_spec (st_tindex s) _ (dw_terms_nonempty x)) as (ids & -> & _).
-      apply search_ids_dw_ok; exact Hf.
-    - apply search_ids_dw_ok; exact Hf.
-  Qed.
 
   Lemma rem_list_nofail skip : forall ids s, st_fail s = None ->
     ok_or_oof (snd (rem_list rr s ids skip now)).
@@ -279,9 +311,9 @@ Section NoFail.
     ok_or_oof (snd (delete_dependencies rr s id now)).
   Proof.
     intros Hf. unfold delete_dependencies.
-    destruct (search_state_dw_ok id s Hf) as [res Hres].
-    pose proof (search_state_R Sub Sub_refl Sub_trans Sub_amb rr rr_Sub s (dw_pattern id) now) as HS.
-    destruct (search_state rr s (dw_pattern id) now) as [s1 o]. cbn [fst snd] in *. subst o.
+    destruct (search_state_dw_ok id s now) as [res Hres].
+    pose proof (search_state_Sub s (dw_pattern id) now) as HS.
+    destruct (search_state s (dw_pattern id) now) as [s1 o]. cbn [fst snd] in *. subst o.
     apply rem_list_nofail. destruct HS as (_ & _ & HS & _). congruence.
   Qed.
 
@@ -340,7 +372,7 @@ Proof.
   rewrite rem_body_head. intros H Hc.
   destruct (snd (rem_head s id)) eqn:Ec; [|discriminate].
   destruct (rem_head_purged s id Ec Hc) as [H1 H2].
-  pose proof (delete_dependencies_R Sub Sub_refl Sub_trans Sub_amb (rem_fuel f) (rem_fuel_Sub f)
+  pose proof (delete_dependencies_R Sub Sub_refl Sub_trans Sub_pending (rem_fuel f) (rem_fuel_Sub f)
                 (fst (rem_head s id)) id now) as HS.
   rewrite <- (fst_wrapb _ (had_fact s id)) in HS. rewrite H in HS. cbn [fst] in HS.
   split; [eapply Sub_facts_None|eapply Sub_store_None]; eassumption.
@@ -354,31 +386,132 @@ Proof. apply rem_fuel_purges. Qed.
 
 (** * B4: get *)
 
+Lemma st_get_snd s id now : snd (st_get s id now) = snd (get_body s id now).
+Proof. unfold st_get. apply snd_with_purge. Qed.
+
 Lemma st_get_Ok_iff s id now fact :
   snd (st_get s id now) = Ok fact <->
   alookup id (st_facts s) = Some fact /\ fact_expired fact now = false.
 Proof.
-  unfold st_get. destruct (alookup id (st_facts s)) as [f|] eqn:El.
-  - destruct (fact_expired f now) eqn:Ex.
-    + destruct (st_rem s id now) as [s1 [b|e|w|]]; cbn [snd]; split; try discriminate;
-        intros [H1 H2]; injection H1 as ->; congruence.
-    + cbn [snd]. split.
+  rewrite st_get_snd. unfold get_body. destruct (alookup id (st_facts s)) as [f|] eqn:El.
+  - unfold expire. destruct (fact_expired f now) eqn:Ex; cbn [snd].
+    + split; [discriminate|]. intros [H1 H2]; injection H1 as ->; congruence.
+    + split.
       * intros H. injection H as ->. split; [reflexivity|exact Ex].
       * intros [H _]. injection H as ->. reflexivity.
   - cbn [snd]. split; [discriminate|]. intros [H _]. discriminate.
 Qed.
 
+(** * The purge that ends a read removes the expired item the read met *)
+
+(** a removal takes an item out of the memory AND out of the storage (when no
+    storage call fails) *)
+Definition Both (s s' : state) : Prop :=
+  Sub s s' /\
+  (st_fail s = None -> forall j, alookup j (st_facts s) <> None ->
+     alookup j (st_facts s') = None -> alookup j (st_store s') = None).
+
+Lemma Both_refl s : Both s s.
+Proof. split; [apply Sub_refl|]. intros _ j H1 H2. congruence. Qed.
+
+Lemma Both_trans a b c : Both a b -> Both b c -> Both a c.
+Proof.
+  intros [S1 B1] [S2 B2]. split; [eapply Sub_trans; eassumption|].
+  intros Hf j Hj Hc.
+  assert (Hfb : st_fail b = None) by (destruct S1 as (_ & _ & H & _); congruence).
+  destruct (alookup j (st_facts b)) as [f|] eqn:Eb.
+  - apply (B2 Hfb j); [congruence|exact Hc].
+  - eapply Sub_store_None; [exact S2|]. apply (B1 Hf j Hj Eb).
+Qed.
+
+Lemma Both_pending s (p : list string) : Both s (set_pending s p).
+Proof. split; [apply Sub_pending|]. intros _ j H1 H2. cbn [st_facts set_pending] in H2. congruence. Qed.
+
+Lemma Both_head s id : Both s (fst (rem_head s id)).
+Proof.
+  split; [apply Sub_head|]. intros Hf j Hj.
+  unfold rem_head. destruct (st_kind s) eqn:Hk.
+  - destruct (alookup id (st_facts s)) as [fact|] eqn:El; [|cbn [fst]; congruence].
+    destruct (idx_drop_fields s id fact) as (F1 & F2 & F3 & F4 & F5 & _).
+    pose proof (facts_idx_drop s id fact) as F0.
+    unfold store_call. rewrite F5, Hf. cbn [fst st_facts st_store set_store]. rewrite F0, F2.
+    rewrite !alookup_aremove. destruct (String.eqb j id); [reflexivity|congruence].
+  - unfold store_call. rewrite Hf. cbn [fst st_facts st_store set_store set_facts].
+    rewrite !alookup_aremove. destruct (String.eqb j id); [reflexivity|congruence].
+Qed.
+
+Lemma st_rem_Both s id now : Both s (fst (st_rem s id now)).
+Proof. apply (st_rem_R Both Both_refl Both_trans Both_pending Both_head). Qed.
+Lemma purge_ids_Both ids s now : Both s (fst (purge_ids s ids now)).
+Proof. apply (purge_ids_R Both Both_refl Both_trans Both_pending Both_head). Qed.
+Lemma purge_Both s now : Both s (fst (purge s now)).
+Proof. apply (purge_R Both Both_refl Both_trans Both_pending Both_head). Qed.
+
+(** one round, no storage failure: every noted id that was present and
+    expired is gone from the memory *)
+Lemma purge_ids_removes now id : forall ids s,
+  st_fail s = None -> In id ids ->
+  (forall fact, alookup id (st_facts s) = Some fact -> fact_expired fact now = true) ->
+  alookup id (st_facts (fst (purge_ids s ids now))) = None.
+Proof.
+  induction ids as [|i r IH]; intros s Hf Hin Hx; [destruct Hin|].
+  assert (Hafter : forall s1, Sub s s1 -> alookup id (st_facts s1) = None ->
+            alookup id (st_facts (fst (purge_ids s1 r now))) = None).
+  { intros s1 HS H1. eapply Sub_facts_None; [|exact H1].
+    apply (purge_ids_R Sub Sub_refl Sub_trans Sub_pending Sub_head). }
+  assert (Hstep : forall s1, Sub s s1 -> In id r ->
+            alookup id (st_facts (fst (purge_ids s1 r now))) = None).
+  { intros s1 HS Hr. apply IH; [destruct HS as (_ & _ & H & _); congruence|exact Hr|].
+    intros fact Hl. apply Hx. destruct HS as (_ & _ & _ & _ & HF & _). apply HF. exact Hl. }
+  cbn [purge_ids].
+  destruct (alookup i (st_facts s)) as [fi|] eqn:Eli.
+  - destruct (fact_expired fi now) eqn:Exi.
+    + destruct (st_rem_ok_nofail s i now Hf) as [had Hok].
+      pose proof (st_rem_Sub s i now) as HS.
+      destruct (st_rem s i now) as [s1 o] eqn:Er. cbn [fst snd] in *. subst o.
+      destruct (st_rem_purges s i now s1 had Er) as [H1 _]; [right; congruence|].
+      destruct Hin as [->|Hr]; [apply Hafter; assumption|apply Hstep; assumption].
+    + destruct Hin as [->|Hr]; [|apply Hstep; [apply Sub_refl|exact Hr]].
+      rewrite (Hx fi Eli) in Exi. discriminate.
+  - destruct Hin as [->|Hr]; [apply Hafter; [apply Sub_refl|exact Eli]|apply Hstep; [apply Sub_refl|exact Hr]].
+Qed.
+
+Lemma purge_fuel_removes now id : forall fuel s,
+  st_fail s = None -> In id (st_pending s) ->
+  (forall fact, alookup id (st_facts s) = Some fact -> fact_expired fact now = true) ->
+  snd (purge_fuel fuel s now) = Ok tt ->
+  alookup id (st_facts (fst (purge_fuel fuel s now))) = None.
+Proof.
+  destruct fuel as [|f]; intros s Hf Hin Hx; cbn [purge_fuel].
+  - destruct (st_pending s); [destruct Hin|discriminate].
+  - destruct (st_pending s) as [|i ids] eqn:Ep; [destruct Hin|].
+    pose proof (purge_ids_removes now id (i :: ids) (set_pending s []) Hf Hin Hx) as H1.
+    destruct (purge_ids (set_pending s []) (i :: ids) now) as [s1 [u|e|w|]]; cbn [fst snd] in *;
+      try discriminate.
+    intros _. eapply Sub_facts_None; [|exact H1].
+    apply (purge_fuel_R Sub Sub_refl Sub_trans Sub_pending Sub_head).
+Qed.
+
+Lemma purge_removes s id now :
+  st_fail s = None -> In id (st_pending s) ->
+  (forall fact, alookup id (st_facts s) = Some fact -> fact_expired fact now = true) ->
+  alookup id (st_facts (fst (purge s now))) = None.
+Proof. intros Hf Hin Hx. apply purge_fuel_removes; auto. apply purge_ok. Qed.
+
 Lemma st_get_expired s id now fact :
   alookup id (st_facts s) = Some fact -> fact_expired fact now = true ->
-  (forall f, snd (st_get s id now) <> Ok f) /\
-  (forall had, snd (st_rem s id now) = Ok had ->
-     snd (st_get s id now) = Err "notfound" /\
+  snd (st_get s id now) = Err "notfound" /\
+  (st_fail s = None ->
      alookup id (st_facts (fst (st_get s id now))) = None /\
      alookup id (st_store (fst (st_get s id now))) = None).
 Proof.
-  intros El Ex. split.
-  - intros f H. apply st_get_Ok_iff in H. destruct H as [H1 H2]. congruence.
-  - intros had Hr. unfold st_get. rewrite El, Ex.
-    destruct (st_rem s id now) as [s1 o] eqn:Er. cbn [snd] in Hr. subst o. cbn [fst snd].
-    split; [reflexivity|]. eapply st_rem_purges; [exact Er|]. right. congruence.
+  intros El Ex. unfold st_get. rewrite with_purge_eq. unfold get_body. rewrite El.
+  rewrite (expire_true s id fact now Ex). cbn [fst snd]. split; [reflexivity|].
+  intros Hf.
+  assert (H1 : alookup id (st_facts (fst (purge (note_expired s id) now))) = None).
+  { apply purge_removes; [exact Hf|cbn [st_pending note_expired set_pending]; apply in_or_app; right; left; reflexivity|].
+    cbn [st_facts note_expired set_pending]. intros f Hl. congruence. }
+  split; [exact H1|].
+  destruct (purge_Both (note_expired s id) now) as [_ HB].
+  apply HB; [exact Hf|cbn [st_facts note_expired set_pending]; congruence|exact H1].
 Qed.
